@@ -151,7 +151,7 @@ class Quasisep(Kernel):
 
     def __radd__(self, other: Any) -> Kernel:
         # We'll hit this first branch when using the `sum` function
-        if other == 0:
+        if not isinstance(other, jax.core.Tracer) and other == 0:
             return self
         if not isinstance(other, Quasisep):
             raise ValueError(
